@@ -47,6 +47,7 @@ theorem term_pairwise (hD : ∀ v, (D v).Nodup) : ∀ (t : Term V), t.noFlat = t
     simp only [evalTerm, List.pairwise_map]
     exact List.Pairwise.imp (fun h => h) (ih hf β)
   | flatten id t _ => intro hf; simp [Term.noFlat] at hf
+  | concat id t _ => intro hf; simp [Term.noFlat] at hf
 
 theorem args_pairwise (hD : ∀ v, (D v).Nodup) : ∀ (ts : List (Term V)), Terms.noFlat ts = true →
     ∀ (β : Bnd V), (evalArgs W D ts β).Pairwise Inc := by
